@@ -34,6 +34,7 @@ type consCfg struct {
 	DoubleClose    bool    `json:"doubleClose"`
 	IDBase0        bool    `json:"idBase0"` // broker ids start at 0 instead of 1
 	PanicIc        int     `json:"panicIc"` // 1-based index of a consumer interceptor that panics after logging
+	IcKind         string  `json:"icKind"`  // dynamic type of the interceptors: "" pointer, "value" struct value, "func" func adapter
 }
 
 type consConsume struct {
@@ -79,6 +80,24 @@ func (i *vConsInterceptor) OnConsume(m *ConsumerMessage) {
 	if i.panics {
 		panic("verif: consumer interceptor panic")
 	}
+}
+
+type vValConsInterceptor struct{ p *vConsInterceptor }
+
+func (i vValConsInterceptor) OnConsume(m *ConsumerMessage) { i.p.OnConsume(m) }
+
+type vFuncConsInterceptor func(*ConsumerMessage)
+
+func (f vFuncConsInterceptor) OnConsume(m *ConsumerMessage) { f(m) }
+
+func vWrapConsIc(kind string, p *vConsInterceptor) ConsumerInterceptor {
+	switch kind {
+	case "value":
+		return vValConsInterceptor{p}
+	case "func":
+		return vFuncConsInterceptor(p.OnConsume)
+	}
+	return p
 }
 
 func batchesJSON(bs []simLogBatch) []kv {
@@ -228,7 +247,7 @@ func runConsumerScenario(t testing.TB, rec *vRec, sc *consScenario) {
 		config.Consumer.IsolationLevel = ReadCommitted
 	}
 	for i := 0; i < cf.Interceptors; i++ {
-		config.Consumer.Interceptors = append(config.Consumer.Interceptors, &vConsInterceptor{rec: rec, chain: i + 1, panics: cf.PanicIc == i+1})
+		config.Consumer.Interceptors = append(config.Consumer.Interceptors, vWrapConsIc(cf.IcKind, &vConsInterceptor{rec: rec, chain: i + 1, panics: cf.PanicIc == i+1}))
 	}
 	vUseDialer(config)
 	if err := config.Validate(); err != nil {
